@@ -1,8 +1,11 @@
 import NomtModel.Api.ApiRollback
+import NomtModel.Api.ExecLemmas
 /-!
-# C12 — A rejected or deferred commit has no effect at all  (first claim; Exec-level theorems follow)
+# C12 — A rejected or deferred commit has no effect at all
 
-Theorems over the abstract commit protocol `Api/Api.lean` (state = values, root, rollback log, seqn).
+Part A: theorems over the abstract commit protocol `Api/Api.lean` (state = values, root, rollback log, seqn),
+including the F1 witness.  Part B: theorems over the executable API model `Api/Exec.lean`; `obs` is the
+committed part of the state `(kv, root, log, seqn, lastMarker)` (helper lemmas: `Api/ExecLemmas.lean`).
 -/
 namespace Nomt.C12
 open NomtApi
@@ -31,5 +34,53 @@ example : commit (K := Nat) (V := Nat) (R := Nat) { prevRoot := 1, newRoot := 2,
     { kv := fun _ => none, root := 7, log := [], seqn := 0 } =
     (.err, { kv := fun _ => none, root := 7, log := [], seqn := 0 }) := by
   apply commit_rejected_noop; decide
+
+end Nomt.C12
+
+namespace Nomt.C12
+open Nomt Nomt.Api
+variable {Node VH : Type} [DecidableEq Node] [DecidableEq VH]
+
+/-- T12.3: a blocking `FinishedSession::commit` that does not return `ok` leaves values, root, rollback
+log, sequence number and overlay marker unchanged; the whole state is unchanged except that the changeset
+is consumed. -/
+theorem T12_3_commitFin_refused_noop (s : St Node VH) (fid : Nat) (h : (commitFin s fid).1 ≠ .ok) :
+    obs (commitFin s fid).2 = obs s ∧
+    ((commitFin s fid).2 = { s with fins := s.fins.filter (·.id != fid) } ∨ (commitFin s fid).2 = s) :=
+  ⟨commitFin_not_ok_obs s fid h, commitFin_not_ok_state s fid h⟩
+
+/-- T12.4: `try_commit_nonblocking` that does not return `ok` leaves the committed state unchanged, and a
+deferred one (`busy`) leaves the *entire* state unchanged (the changeset is handed back). -/
+theorem T12_4_tryCommitFin_refused_noop (s : St Node VH) (fid : Nat) :
+    ((tryCommitFin s fid).1 ≠ .ok → obs (tryCommitFin s fid).2 = obs s) ∧
+    ((tryCommitFin s fid).1 = .busy → (tryCommitFin s fid).2 = s) :=
+  ⟨tryCommitFin_not_ok_obs s fid, tryCommitFin_busy s fid⟩
+
+/-- T12.5: a refused `Overlay::commit` leaves the committed state unchanged and does not mark any overlay
+as committed. -/
+theorem T12_5_commitOv_refused_noop (s : St Node VH) (oid : Nat) (h : (commitOv s oid).1 ≠ .ok) :
+    obs (commitOv s oid).2 = obs s ∧
+    (∀ o ∈ (commitOv s oid).2.ovs, o.committed = true → ∃ o' ∈ s.ovs, o'.id = o.id ∧ o'.committed = true) ∧
+    ((commitOv s oid).2 = s ∨ (commitOv s oid).2 = dropOv s oid) :=
+  ⟨commitOv_not_ok_obs s oid h, commitOv_not_ok_committed s oid h, commitOv_not_ok s oid h⟩
+
+/-- T12.6: a refused or deferred `Overlay::try_commit_nonblocking` leaves the committed state unchanged and
+does not mark any overlay as committed; deferred (`busy`) leaves the entire state unchanged. -/
+theorem T12_6_tryCommitOv_refused_noop (s : St Node VH) (oid : Nat) :
+    ((tryCommitOv s oid).1 ≠ .ok →
+      obs (tryCommitOv s oid).2 = obs s ∧
+      (∀ o ∈ (tryCommitOv s oid).2.ovs, o.committed = true → ∃ o' ∈ s.ovs, o'.id = o.id ∧ o'.committed = true)) ∧
+    ((tryCommitOv s oid).1 = .busy → (tryCommitOv s oid).2 = s) :=
+  ⟨fun h => ⟨tryCommitOv_not_ok_obs s oid h, tryCommitOv_not_ok_committed s oid h⟩, tryCommitOv_busy s oid⟩
+
+/-- T12.7: a refused rollback changes nothing at all -/
+theorem T12_7_rollback_refused_noop (H : Hasher Node VH) (s : St Node VH) (n : Nat)
+    (h : (rollback H s n).1 ≠ .ok) : (rollback H s n).2 = s :=
+  rollback_not_ok H s n h
+
+/-- non-vacuity (Exec): a finished session on a stale base root is refused -/
+example : (commitFin (Node := Nat) (VH := Nat)
+    { root := 7, fins := [{ id := 1, chain := [], writes := [([true], some 5)], prevRoot := 3, root := 4,
+                            delta := [([true], none)] }] } 1).1 = .err := by decide
 
 end Nomt.C12
